@@ -216,4 +216,47 @@ example :
       [.append [10, 11, 12], .read 2, .record 3, .read 2, .check, .append [13], .finish 2, .check, .read 8, .read 8, .check]
     s.ended = true ∧ s.sent = [11, 12, 13] := by decide
 
+
+theorem afterLine_eq_drop : ∀ s : List Nat, afterLine s = s.drop (lineLen s) := by
+  intro s
+  induction s with
+  | nil => rfl
+  | cons c rest ih =>
+    by_cases h : c = 10
+    · simp [afterLine, lineLen, h]
+    · simp only [afterLine, lineLen, h, if_false]
+      rw [ih, Nat.add_comm]
+      rfl
+
+/-- **body_via_same_reader_exact.** However much of the stream the buffered reader had pulled when it found the end of
+the reply line — the line alone, or the line and any amount of the data that follows, as happens when they arrive
+together — copying the body from that same reader yields exactly the bytes after the line. -/
+theorem body_via_same_reader_exact (stream : List Nat) (k : Nat) (hk : lineLen stream ≤ k) :
+    bodyCopied true stream k = afterLine stream := by
+  rw [afterLine_eq_drop]
+  simp only [bodyCopied, if_true]
+  have h1 : (stream.take k).drop (lineLen stream) = (stream.drop (lineLen stream)).take (k - lineLen stream) := by
+    rw [List.drop_take]
+  rw [h1]
+  have h2 : stream.drop k = (stream.drop (lineLen stream)).drop (k - lineLen stream) := by
+    rw [List.drop_drop]
+    congr 1
+    omega
+  rw [h2, List.take_append_drop]
+
+/-- copying from the connection underneath loses exactly what the reader had pulled beyond the line -/
+theorem body_via_conn_loses (stream : List Nat) (k : Nat) (hk : lineLen stream ≤ k) :
+    bodyCopied false stream k = (afterLine stream).drop (k - lineLen stream) := by
+  rw [afterLine_eq_drop]
+  simp only [bodyCopied, Bool.false_eq_true, if_false]
+  rw [List.drop_drop]
+  congr 1
+  omega
+
+/-- Witness: the line and the first five bytes of data arrive together -/
+theorem C05_witness_body_past_reader :
+    bodyCopied false [83, 10, 1, 2, 3, 4, 5, 6, 7] 7 = [6, 7] ∧ bodyCopied true [83, 10, 1, 2, 3, 4, 5, 6, 7] 7 = [1, 2, 3, 4, 5, 6, 7] := by
+  decide
+
+
 end Receptor.Results
